@@ -168,14 +168,19 @@ func cmdCheck(args []string) {
 				all = append(all, o)
 			}
 		}
+		seenErr := map[string]bool{}
 		for _, e := range u.Errors {
-			fmt.Printf("govc: contract error in %s: %s\n", u.Name, e)
+			if seenErr[e] {
+				continue
+			}
+			seenErr[e] = true
+			// a clause that no longer evaluates against the code (a local or field it names is gone): the proof that
+			// discharged on the unchanged tree does not apply any more; reported as a failed obligation of that function
+			fmt.Printf("govc: contract clause cannot be evaluated in %s: %s\n", u.Name, e)
 			specErrs++
+			u.Obls = append(u.Obls, &Obligation{Name: fmt.Sprintf("%s/contract#%d", u.Name, specErrs), Func: u.Name, Kind: "contract",
+				Status: "unevaluable", Src: e, Props: []string{id}})
 		}
-	}
-	if specErrs > 0 {
-		fmt.Println("govc: contracts do not match the code (names/types); no verdict")
-		os.Exit(2)
 	}
 	quickCap, fullCap := 3, 10
 	if *tier == "thorough" {
@@ -408,6 +413,8 @@ func reportViolation(prog *Program, id string, o *Obligation, u *Unit) string {
 		reason = "solver found a counterexample to the obligation"
 	case "unknown", "timeout":
 		reason = "solver-undecided: the obligation discharged on the unchanged tree and no longer does"
+	case "unevaluable":
+		reason = "a contract clause (invariant or pre/postcondition) names a variable, field or type the code no longer has: the proof that discharged on the unchanged tree does not apply to this code"
 	}
 	if o.ExpectFail {
 		reason = "vacuity: no normal return of the function is reachable under its preconditions any more"
